@@ -41,6 +41,7 @@ def run(ctx):
     C.sweep(ctx, model, table, lambda k: True, nvec, profile, stats, judge_answers=False)
     C.reply_sweep(ctx, model, 1 if quick else 6, profile, stats)
     C.retry_sweep(ctx, model, 2 if quick else 20, profile, stats)
+    C.history_sweep(ctx, model, lambda k: True, 25 if quick else 400, stats, judge_answers=False)
     K = C.kinds()
     if table is not None:
         names = set(r[0].decode() for r in table[0])
